@@ -43,3 +43,26 @@ class Plain:
 
     def __init__(self, *args, **kwargs):
         self.args, self.kwargs = args, kwargs
+
+
+class Scaler(ParameterObject):
+    """A parameter object that also wants to see the chain (taskchain.chain.ChainObject is mixed in lazily)."""
+
+    def __init__(self, k):
+        self.k = k
+        self.chain_size = None
+
+    def repr(self):
+        return 'Scaler(k=' + _r(self.k) + ')'
+
+    def init_chain(self, chain):
+        self.chain_size = len(chain.tasks)
+
+    def tagvalue(self):
+        return ('scaler', self.k, self.chain_size)
+
+
+def chain_scaler(k):
+    from taskchain.chain import ChainObject
+    cls = type('ChainScaler', (Scaler, ChainObject), {})
+    return cls(k)
